@@ -146,8 +146,54 @@ func (e *VerifC14Engine) settle() {
 
 func (e *VerifC14Engine) day(d int) time.Time { return e.base.Add(time.Duration(d) * 24 * time.Hour) }
 
-// K is the number of segments.
-func (e *VerifC14Engine) K() int { return e.k }
+// K is the number of segments the driver has a handle for (grows with RotationTick).
+func (e *VerifC14Engine) K() int { return len(e.segs) }
+
+// RotationTick issues a real database.Tick with an event time inside the last hour before the newest
+// segment's end (rotation enabled): the rotation goroutine pre-creates the next segment. Waits (bounded)
+// until the new segment is listed and the asynchronous handler is done, then adopts a handle for it.
+// Returns "new" or "none".
+func (e *VerifC14Engine) RotationTick() string {
+	end := e.day(len(e.segs))
+	res := "none"
+	for attempt := 0; attempt < 5 && res == "none"; attempt++ {
+		// each attempt is 11 minutes later: a Tick that lost the non-blocking send cannot be repeated
+		e.db.Tick(end.Add(-55*time.Minute + time.Duration(attempt)*11*time.Minute).UnixNano())
+		for i := 0; i < 60 && res == "none"; i++ {
+			time.Sleep(5 * time.Millisecond)
+			for _, s := range e.ctl.List() {
+				known := false
+				for _, old := range e.segs {
+					if old.Same(s) {
+						known = true
+					}
+				}
+				if !known {
+					e.segs = append(e.segs, s)
+					res = "new"
+				}
+			}
+		}
+	}
+	// let the handler finish (it pins and unpins every segment): refCounts stable and not busy
+	last, stable := "", 0
+	for i := 0; i < 400 && stable < 6; i++ {
+		time.Sleep(5 * time.Millisecond)
+		cur := ""
+		for _, s := range e.segs {
+			rc, _, _, _ := s.State()
+			cur += fmt.Sprint(rc, ",")
+		}
+		if cur == last && !e.ctl.RotationBusy() {
+			stable++
+		} else {
+			stable = 0
+		}
+		last = cur
+	}
+	return res
+}
+
 
 // State reads (refCount, index != nil, mustBeDeleted, dir exists) of segment i.
 func (e *VerifC14Engine) State(i int) (int32, bool, bool, bool) { return e.segs[i].State() }
